@@ -117,9 +117,11 @@ func (vm *VM) GetLocals(locals []Object) []Object {
 func (vm *VM) Abort() {
 	verifPoint(vpAbortEnter, vm)
 	defer verifPoint(vpAbortExit, vm)
-	vm.pool.abort()
-	verifPoint(vpAbortMid, vm)
+	// Set the flag before aborting the child VMs: a child acquired concurrently
+	// is either registered in the pool already or sees the flag of its root.
 	vm.abort.Store(1)
+	verifPoint(vpAbortMid, vm)
+	vm.pool.abort()
 }
 
 // Aborted reports whether VM is aborted. It is safe to call this method from
@@ -130,6 +132,13 @@ func (vm *VM) Aborted() bool {
 
 // Run runs VM and executes the instructions until the OpReturn Opcode or Abort call.
 func (vm *VM) Run(globals Object, args ...Object) (Object, error) {
+	return vm.runWith(true, globals, args...)
+}
+
+// runWith is Run which resets the abort flag only if resetAbort is set. Callers
+// which must not lose an Abort call arriving before the instructions start
+// (child VMs of an Invoker, Eval) clear the flag themselves beforehand.
+func (vm *VM) runWith(resetAbort bool, globals Object, args ...Object) (Object, error) {
 	verifPoint(vpRunEnter, vm)
 	defer verifPoint(vpRunExit, vm)
 	vm.mu.Lock()
@@ -141,7 +150,9 @@ func (vm *VM) Run(globals Object, args ...Object) (Object, error) {
 	}
 
 	vm.err = nil
-	vm.abort.Store(0)
+	if resetAbort {
+		vm.abort.Store(0)
+	}
 	verifPoint(vpRunReset, vm)
 	vm.initGlobals(globals)
 	vm.initLocals(args)
@@ -1616,7 +1627,9 @@ func (inv *Invoker) Invoke(args ...Object) (Object, error) {
 	}
 	verifPoint(vpInvokeChecked, inv.child)
 	if inv.isCompiled {
-		return inv.child.Run(inv.vm.globals, args...)
+		// The abort flag of a child VM is set by Abort of its root only and
+		// cleared on release, do not reset it between the check above and the run.
+		return inv.child.runWith(false, inv.vm.globals, args...)
 	}
 	return inv.invokeObject(inv.callee, args...)
 }
@@ -1682,6 +1695,9 @@ func (v *vmPool) _acquire(vm *VM, cf *CompiledFunction) *VM {
 		root: v.root,
 	}
 	vm.noPanic = v.root.noPanic
+	if v.root.Aborted() {
+		vm.abort.Store(1)
+	}
 
 	if v.vms == nil {
 		v.vms = make(map[*VM]struct{})
